@@ -154,7 +154,7 @@ func Time2(neg bool, h, mi, s, usec, fsp int) []byte {
 	if neg {
 		nr = -nr
 	}
-	intPart := nr >> 24         // arithmetic shift: floor
+	intPart := nr >> 24        // arithmetic shift: floor
 	fracPart := nr % (1 << 24) // C remainder: sign of the dividend
 	switch fsp {
 	case 0:
